@@ -477,7 +477,7 @@ fn s_utils_decap(p: &P) -> Option<String> {
     let mut d = dec(2, 200, 3);
     let mut buf = vec![0u8; 400];
     no_panic(|| {
-        if lk >= 10 {
+        {
             let x = GseCompletePacket::new((2 + lb.len() + 3) as u16, pt, full, &[9, 9, 9]); x.generate(&mut buf);
             match d.decap(&buf[..4 + lb.len() + 3]) { Ok((DecapStatus::CompletedPkt(b, md), _)) => { if md.label() != full { return Some("complete packet: wrong label".to_string()); } let _ = d.provision_storage(b); }
                 other => return Some(format!("decapsulator does not accept the generated complete packet: {:?}", other.map(|_| ()).map_err(|e| e.0))) }
@@ -496,7 +496,7 @@ fn s_utils_decap(p: &P) -> Option<String> {
 }
 fn g_utils_decap() -> Vec<P> {
     let mut v = vec![];
-    for lk in [0i64, 1, 2, 10, 11] { for &n1 in &[0i64, 1, 2, 5, 17] { for &n2 in &[1i64, 4, 9, 30] { for n3 in 0..=9i64 { for &pt in &[0x0600i64, 0xFFFF] { v.push(vec![n1, n2, n3, lk, pt]); } } } } }
+    for lk in [0i64, 1, 2, 5, 10, 11] { for &n1 in &[0i64, 1, 2, 5, 17] { for &n2 in &[1i64, 4, 9, 30] { for n3 in 0..=9i64 { for &pt in &[0x0600i64, 0xFFFF] { v.push(vec![n1, n2, n3, lk, pt]); } } } } }
     v
 }
 
